@@ -222,13 +222,16 @@ def gen_field_ty(rng, c, generic, max_depth):
     return t if t is not None else ("ent",)
 
 
-def gen_fields(rng, c, generic, shape, max_depth, nmin=1, nmax=8, force_param=False):
+def gen_fields(rng, c, generic, shape, max_depth, nmin=1, nmax=8, force_param=False, big=False):
     fs = []
     # one draw in five: all fields of one type (>= 3 of them), so that a permutation of the
     # fields in the generated code still type-checks and can only be seen in the data
-    same = gen_field_ty(rng, c, generic, max_depth) if rng.random() < 0.2 else None
+    same = gen_field_ty(rng, c, generic, max_depth) if (big or rng.random() < 0.2) else None
     if same is not None:
         nmin = min(max(nmin, 3), nmax)
+        if big or rng.random() < 0.3:
+            # more than ten fields (positions 10, 11, .. sort before 2 as strings)
+            nmin, nmax = 11, 13
     for _ in range(rng.randint(nmin, nmax)):
         t = same if same is not None else gen_field_ty(rng, c, generic, max_depth)
         attrs = []
@@ -252,11 +255,11 @@ def has_converted(d):
     return any(("skip",) not in f["attrs"] for fs in fss for f in fs)
 
 
-def gen_def(rng, c, force_kind=None):
+def gen_def(rng, c, force_kind=None, big=False):
     """one more definition; a definition without any converted field is outside the grammar
     (its Data type would not use MA: rustc E0392), so such draws are rejected"""
     while True:
-        d, depth = gen_def_once(rng, c, force_kind)
+        d, depth = gen_def_once(rng, c, force_kind, big)
         if has_converted(d):
             break
     c.defs.append(d)
@@ -265,13 +268,13 @@ def gen_def(rng, c, force_kind=None):
     return d
 
 
-def gen_def_once(rng, c, force_kind=None):
+def gen_def_once(rng, c, force_kind=None, big=False):
     max_depth = 2           # references to definitions of depth <= 2: nesting <= 3
     generic = rng.random() < 0.25
     kind = force_kind or rng.choice(["named", "tuple", "enum", "enum"])
     if kind in ("named", "tuple"):
         d = dict(kind="struct", generic=generic,
-                 fields=(kind, gen_fields(rng, c, generic, kind, max_depth, force_param=generic)))
+                 fields=(kind, gen_fields(rng, c, generic, kind, max_depth, force_param=generic, big=big)))
         fss = [d["fields"][1]]
     else:
         vs = []
@@ -380,6 +383,10 @@ def gen_crate(rng, n_types, values_per_type=3):
     kinds = ["named", "tuple", "enum"]
     for i in range(n_types):
         gen_def(rng, c, force_kind=kinds[i] if i < 3 else None)
+    # one tuple struct (and sometimes a named one) with more than ten fields of one type
+    gen_def(rng, c, force_kind="tuple", big=True)
+    if rng.random() < 0.5:
+        gen_def(rng, c, force_kind="named", big=True)
     marked = [s for s in range(N_SLOTS) if s not in UNMARKED]
     everything = list(range(N_SLOTS))
     cid = 0
